@@ -229,7 +229,14 @@ pub fn run(sc: &Value) -> Value {
             }
             "trade_costs" => {
                 let t = rotala::exchange::uist_v1::Trade::new("X", bf(&op["value"]), bf(&op["qty"]), 0, rotala::exchange::uist_v1::TradeType::Buy);
-                json!({"costs": fb(b.calculate_trade_costs(t))})
+                // the broker's own view of the cost model: fees of a trade, and the (net budget, net price) of sizing a
+                // trade with budget = value at price = value / qty (qty 0: price 1), for a buy and for a sell
+                let budget = bf(&op["value"]);
+                let price = if bf(&op["qty"]) == 0.0 { 1.0 } else { budget / bf(&op["qty"]) };
+                let ib = b.calc_trade_impact(&budget, &price, true);
+                let is = b.calc_trade_impact(&budget, &price, false);
+                json!({"costs": fb(b.calculate_trade_costs(t)), "price": fb(price),
+                       "impact_buy": [fb(ib.0), fb(ib.1)], "impact_sell": [fb(is.0), fb(is.1)]})
             }
             "getters" => Value::Null,
             _ => panic!("bad op"),
